@@ -197,8 +197,24 @@ def main():
         for fw in results[n].get('fidelity', []):
             try:
                 nv, nb, det = runner.fidelity_compare(pid, n, fw, tier)
-            except Exception as e:      # the code raised on the witness: not comparable
-                nv, nb, det = 0, 0, f'code raised {type(e).__name__}'
+            except Exception as e:      # the comparison itself failed: not comparable
+                nv, nb, det = 0, 0, f'comparison raised {type(e).__name__}'
+            # the witness is a solver model of a path on which the symbolic run returned normally: if the real code raises
+            # an exception the harness does not allow, or fails an assertion there, the replay reports it like any other model
+            # (this is what exposes defects hidden behind a contract stub, e.g. a complex-valued result of np.linalg.eig)
+            try:
+                rep, detail = runner.replay(pid, n, fw['env'], tier)
+            except Exception:
+                rep, detail = False, None
+            if rep and (detail or {}).get('exc'):
+                key = json.dumps(fw['env'], sort_keys=True, default=str)
+                fn = os.path.join(VERIF, 'replays', f"{pid}_{n.replace('/', '_')}_{len(violations)}.json")
+                json.dump(dict(property=pid, harness=n, obligation='fidelity: the real code raises where the symbolic run returns',
+                               env=fw['env'], detail=detail, found_by='path witness (solver model) replayed on the real code'),
+                          open(fn, 'w'), indent=1, default=str)
+                violations.append(dict(harness=n, obligation='fidelity: the real code raises where the symbolic run returns',
+                                       replay=fn, detail=detail))
+                fid['raised'] = fid.get('raised', 0) + 1
             if nv:
                 fid['points'] += 1
                 fid['values'] += nv
